@@ -86,6 +86,13 @@ class ServerConn:
                     rep = b"SERVER_ERROR out of memory storing object\r\n"
                 elif rf == "garbage":
                     rep = b"WHAT_IS_THIS 17\r\n"
+                elif rf == "badvalue":
+                    # a VALUE block whose header does not parse (non-numeric size / flags), followed by more reply text;
+                    # only a retrieval command can be answered by several lines (anything else would be unsolicited bytes)
+                    if cmd.get("verb") in (b"get", b"gets", b"gat", b"gats"):
+                        rep = b"VALUE k1 zero one\r\nx\r\nEND\r\n"
+                    else:
+                        rep = b"WHAT_IS_THIS 17\r\n"
                 elif isinstance(rf, tuple) and rf[0] == "trunc":
                     full = self.server.apply(cmd)
                     cut = max(0, min(len(full) - 1, rf[1] if rf[1] >= 0 else len(full) + rf[1]))
